@@ -49,12 +49,18 @@ class CleanPass(FunctionPass):
             if block in predecessors:
                 continue
 
+            # Do not remove if a predecessor also jumps to the target and
+            # the target has phis: the phis can not have two different
+            # values for the same incoming block.
+            tgt = block.last_instruction.target
+            if tgt.phis and any(p in tgt.predecessors for p in predecessors):
+                continue
+
             # Update successor incoming blocks:
             for successor in successors:
                 successor.replace_incoming(block, predecessors)
 
             # Change the target of predecessors:
-            tgt = block.last_instruction.target
             for pred in predecessors:
                 pred.change_target(block, tgt)
 
